@@ -311,7 +311,11 @@ static void emitInPlace(const M & m, const char * rep, const Tables & t, const A
     x = pa; PO::updateBeliefPartialNormalized(m, x, a, o, &x);   inplaceLine("pnorm", rep, t, a, o, exact, pa, pno, x);
 }
 
+// (compile with -DC05_NO_INPLACE to leave the in-place probes out, should in-place use be ruled outside the contract)
 static void emitInPlaceAll(const Models & M, const AI::Vector & b, size_t a, size_t o, bool exact) {
+#ifdef C05_NO_INPLACE
+    (void)M; (void)b; (void)a; (void)o; (void)exact; return;
+#endif
     emitInPlace(*M.dense, "dense", M.t, b, a, o, exact);
     emitInPlace(*M.sparse, "sparse", M.t, b, a, o, exact);
     emitInPlace(M.user, "generic", M.t, b, a, o, exact);
@@ -419,7 +423,9 @@ void verif::verif_case(Rng & rng, long idx, const std::string & tier) {
         std::printf("#stat belief_%s 1\n", shape == 0 ? "corner" : shape == 1 ? "face" : "interior");
         emitUpd(M, b, a, exact, k == 2);       // the third belief goes through the converted models
     }
-    if (!thorough || idx % 3 == 0) {   // the pointer overloads called in place, one (b, a, o) per case
+    // the pointer overloads called in place, one (b, a, o) per case.  Small S only: the Lean model of the unguarded
+    // in-place loop is a chain of closures whose evaluation cost grows exponentially with S.
+    if (S <= 6 && (!thorough || idx % 3 == 0)) {
         AI::Vector b = makeBelief(rng, S, st, (int)rng.below(3));
         emitInPlaceAll(M, b, rng.below(A), rng.below(O), exact);
     }
